@@ -58,7 +58,7 @@ func OperatorVariants() []Op {
 	}
 	out = append(out, &Sort{Kw: "sort", Terms: []SortTerm{{X: xs[3]}, {X: xs[4], Dir: "asc"}, {X: xs[6], Nulls: "last"}}})
 	for _, kw := range []string{"take", "limit"} {
-		out = append(out, &Take{Kw: kw, N: NumLit("5", "5")}, &Take{Kw: kw, N: NumLit("0x10", "16")}, &Take{Kw: kw, N: Col("n")},
+		out = append(out, &Take{Kw: kw, N: NumLit("5", "5")}, &Take{Kw: kw, N: NumLit("0x10", "16")}, &Take{Kw: kw, N: NumLit("0x1e", "30")}, &Take{Kw: kw, N: &Paren{X: NumLit("0XBEEF", "48879")}}, &Take{Kw: kw, N: Col("n")},
 			&Take{Kw: kw, N: &Paren{X: NumLit("3", "3")}})
 	}
 	for _, d := range dirs {
@@ -185,7 +185,8 @@ func Programs() []*Program {
 	}
 	out = append(out, Single(&Pipeline{Source: *id("T")}), Single(&Pipeline{Source: *qid("my table")}))
 	// names spelled like keywords and operator names, quoted (any spelling) and unquoted (where the lexer gives an identifier)
-	for _, w := range []string{"let", "where", "by", "in", "and", "or", "count", "join", "kind", "on", "with", "as", "asc", "nulls", "true", "null", "T"} {
+	for _, w := range []string{"let", "where", "by", "in", "and", "or", "count", "join", "kind", "on", "with", "as", "asc", "nulls", "true", "null", "T",
+		"OR", "And", "IN", "By", "aNd", "Let", "WHERE", "Null", "TRUE", "Asc", "DESC", "Count", "Kind"} {
 		for _, quoted := range []bool{true, false} {
 			if !quoted && (w == "by" || w == "in" || w == "and" || w == "or" || w == "let") {
 				continue // keywords of the lexer / statement keyword: not identifiers when unquoted
@@ -234,6 +235,21 @@ func Programs() []*Program {
 			out = append(out, &Program{Stmts: append(lets, p)})
 		}
 	}
+	// the same kind of bracketed group in several operators, on both sides of a join, and in a let next to the query
+	idx := func(base, key string) Expr { return &Index{X: Col(base), I: StrLit(key)} }
+	eq1 := func(x Expr) Expr { return &Binary{Op: "==", X: x, Y: NumLit("1", "1")} }
+	inl := func(x string, vals ...Expr) Expr { return &In{X: Col(x), Vals: vals} }
+	call := func(f string, args ...Expr) Expr { return &Call{Func: f, Args: args} }
+	rightIdx := &Pipeline{Source: *id("Y"), Ops: []Op{&Where{Kw: "where", Pred: eq1(idx("n", "b"))}}}
+	rightMix := &Pipeline{Source: *id("Y"), Ops: []Op{&Extend{Cols: []Column{{Name: id("z"), X: call("f", idx("n", "b"), inl("c", NumLit("1", "1"), call("g", NumLit("2", "2"))))}}}, &Where{Kw: "where", Pred: &Paren{X: eq1(idx("p", "q"))}}}}
+	out = append(out,
+		Single(&Pipeline{Source: *id("X"), Ops: []Op{&Where{Kw: "where", Pred: eq1(idx("m", "a"))}, &Join{Right: rightIdx, On: []Expr{Col("k")}}}}),
+		Single(&Pipeline{Source: *id("X"), Ops: []Op{&Where{Kw: "where", Pred: eq1(idx("m", "a"))}, &Join{Kind: "leftouter", Right: rightMix, On: []Expr{&Binary{Op: "==", X: &Index{X: &Name{Parts: []Ident{{Name: "$left"}, {Name: "m"}}}, I: NumLit("0", "0")}, Y: &Name{Parts: []Ident{{Name: "$right"}, {Name: "z"}}}}}}, &Extend{Cols: []Column{{X: idx("r", "s")}}}}}),
+		&Program{Stmts: []Stmt{&Let{Name: *id("a"), X: call("f", NumLit("1", "1"))}, &Pipeline{Source: *id("T"), Ops: []Op{&Where{Kw: "where", Pred: eq1(idx("n", "j"))}}}}},
+		&Program{Stmts: []Stmt{&Let{Name: *id("a"), X: &Paren{X: NumLit("1", "1")}}, &Let{Name: *id("b"), X: inl("a", NumLit("1", "1"), NumLit("2", "2"))}, &Pipeline{Source: *id("T"), Ops: []Op{&Where{Kw: "where", Pred: inl("x", NumLit("1", "1"), call("f", NumLit("2", "2")))}, &Extend{Cols: []Column{{Name: id("b"), X: inl("x", NumLit("1", "1"), NumLit("2", "2"), call("g", NumLit("3", "3")))}}}}}}},
+		Single(&Pipeline{Source: *id("T"), Ops: []Op{&Where{Kw: "where", Pred: eq1(idx("m", "a"))}, &Extend{Cols: []Column{{Name: id("z"), X: idx("n", "b")}}}, &Sort{Kw: "sort", Terms: []SortTerm{{X: idx("p", "c")}}}, &Summarize{Cols: []Column{{Name: id("u"), X: call("max", idx("q", "d"))}}, By: []Column{{Name: id("v"), X: idx("r", "e")}}, HasBy: true}}}),
+		&Program{Stmts: []Stmt{&Pipeline{Source: *id("T"), Ops: []Op{&Where{Kw: "where", Pred: eq1(idx("m", "a"))}}}, &Pipeline{Source: *id("U"), Ops: []Op{&Where{Kw: "where", Pred: eq1(idx("n", "b"))}}}}},
+	)
 	// lets and empty statements
 	q := &Pipeline{Source: *id("T"), Ops: []Op{&Take{Kw: "take", N: Col("n")}}}
 	lets := []Stmt{
